@@ -238,10 +238,10 @@ theorem precompute_rule_before_after :
 
 /-- parameters are sources too: `update_params` rewrites only the parameter's slots, so
 `update_equiv_repaired` covers it exactly when parameter-sourced variables are flagged `isUpd` as
-well.  The rule as coded in /repo (5ff56ef) flags updatable *fields* only: a constant derived from a
-parameter (variable 1 = `c·c` of the parameter variable 0) is still precomputed, hence stale after
-`update_params` (open finding `update-params-derived-constants`; with the parameter flagged it stays
-in the kernel). -/
+well.  The rule as coded between /repo 5ff56ef and dde8508 flagged updatable *fields* only: a constant
+derived from a parameter (variable 1 = `c·c` of the parameter variable 0) was still precomputed, hence
+stale after `update_params` (finding `update-params-derived-constants`, fixed by dde8508: with the
+parameter flagged — the rule as coded now — it stays in the kernel). -/
 theorem precompute_rule_parameters :
     precompRule true (fun v => if v = 1 then [0] else []) (fun _ => false) (fun _ => false) 2 [0, 1] = [0, 1] ∧
     precompRule true (fun v => if v = 1 then [0] else []) (fun v => v == 0) (fun _ => false) 2 [0, 1] = [0] := by
